@@ -149,7 +149,7 @@ func (a *orValueLoader) literal(lex lexeme.LexEvent) {
 		CompileBasic(&typ, false)
 
 		lex := a.node.BasisLexEventOfSchemaForNode()
-		name := a.rootSchema.AddUnnamedType(&typ, lex.File(), lex.Begin())
+		name := a.rootSchema.AddUnnamedType(&typ, lex.File(), 0)
 
 		a.
 			nodeTypesListConstraint().
